@@ -144,6 +144,10 @@ int main(int argc, char *argv[])
 		/* every month of 14 year types + neighbours; overflowed fields */
 		unsigned ys[] = {1901, 1904, 1999, 2000, 2001, 2003, 2004, 2023, 2024, 2096, 2098};
 		for (unsigned yi = 0; yi < sizeof(ys) / sizeof(*ys); yi++) for (unsigned m = 1; m <= 24; m++) {
+			/* day numbers far beyond the month: the carry runs over several months, over the end of the year and the February behind it */
+			if (m <= 12) for (unsigned d = 41; d <= 255; d += (thorough ? 1 : 7 + (m + yi) % 5)) {
+				do_fix(mkinst(ys[yi], m, d, (d % 2) ? 255 : 12, 0, 0, 0));
+			}
 			for (unsigned d = 1; d <= 40; d += (d < 27 ? 13 : 1)) {
 				do_fix(mkinst(ys[yi], m, d, 255, 0, 0, 0));
 				do_fix(mkinst(ys[yi], m, d, 12, 0, 0, 0));
